@@ -368,16 +368,25 @@ class MDCPDPEnv(RL4COEnvBase):
         num_depot = td["current_length"].shape[-1]
         num_loc = td["locs"].shape[-2] - num_depot  # except depot
 
+        # The vehicle still on the road has to come home (closed problem)
+        current_length = td["current_length"]
+        if self.problem_mode == "close":
+            last_loc = gather_by_index(td["locs"], td["current_node"])
+            home_loc = gather_by_index(td["locs"], td["current_depot"])
+            way_home = self.get_distance(last_loc, home_loc)[..., None]
+            way_home = torch.where(td["current_node"] < num_depot, 0, way_home)
+            current_length = current_length.scatter_add(-1, td["current_depot"], way_home)
+
         # Append the last depot to the end of the actions
         actions = torch.cat([actions, td["current_depot"]], dim=-1)
 
         # Calculate the reward
         if self.reward_mode == "minmax":
-            cost = torch.max(td["current_length"], dim=-1)[0]
+            cost = torch.max(current_length, dim=-1)[0]
         elif self.reward_mode == "minsum":
-            cost = torch.sum(td["current_length"], dim=-1)
+            cost = torch.sum(current_length, dim=-1)
         elif self.reward_mode == "lateness":
-            cost = torch.sum(td["current_length"], dim=(-1))
+            cost = torch.sum(current_length, dim=(-1))
             lateness = td["arrivetime_record"][..., num_depot + num_loc // 2 :]
             if self.reward_mode == "lateness_square":
                 lateness = lateness**2
